@@ -11,13 +11,15 @@ def do_call(exe, n, st):
     from .flow import ErrorExit, merge_outcomes, common_prefix
     name = exe._callee_name(n)
     argn = n['inner'][1:]
-    if name is None:
-        # call through a function pointer stored in a struct member (plugin callbacks): only when the contract file
-        # declares the member as an effect-free callback; the result is an arbitrary value of the call's type
+    via_global = name is not None and name in exe.tu.globals and name not in exe.tu.fn_decls
+    if name is None or via_global:
+        # call through a function pointer stored in a struct member (plugin callbacks) or in a global variable (user
+        # callbacks mjcb_*): only when the contract file declares it as an effect-free callback; the result is an arbitrary
+        # value of the call's type
         f = n['inner'][0]
         while f['kind'] in ('ImplicitCastExpr', 'ParenExpr'):
             f = f['inner'][0]
-        member = f.get('name') if f['kind'] == 'MemberExpr' else None
+        member = name if via_global else (f.get('name') if f['kind'] == 'MemberExpr' else None)
         if member is None or member not in exe.contracts.get('__callbacks__', ()):
             raise FrontEndError('indirect call in %s' % exe.fn_stack[-1])
         p = exe._ev(f, st)
